@@ -28,6 +28,8 @@ def run(ctx):
     mb += ctx.behaviours(ctx.tlc("Mix", "Sim_Mix.cfg", workers=1, timeout=900, simulate="num=%d" % (200 if q else 3000), depth=15, tag="mixed builder: random histories"))
     from lib.replay import replay_family
     replay_family(ctx, "mix", mb, env={"GODEBUG": "clobberfree=1"}, classify=life.classify)
+    # the same on many objects at once (Scale.tla): 64 targets in groups, shared / own builders, long stubs
+    life.scale(ctx, 60, 1500)
     ctx.cov["exhaustive"] = True
     ctx.cov["rule"] = ("every history over {Apply, Origin+Apply, Return, When, Cancel, Reset} to the stated depth for one "
                        "builder and for two builders sharing both targets, plus seeded random length-12 histories; after "
